@@ -22,6 +22,9 @@ def plan(prop, tier):
             J.append((fam, "pre1", ["scenarios=%d" % ((8 if q else 40) // (2 if big else 1)), "threads=2", "opsper=%d" % (1 if big else 2)]))
             if not big:
                 J.append((fam, "pct", ["scenarios=%d" % (12 if q else 60), "runs=%d" % (10 if q else 30), "threads=3", "opsper=2"]))
+        if prop == "C01":   # lookup of a leaf's greatest key vs removes / re-inserts of other keys of that leaf
+            for fam in ["border", "full", "two"]:
+                J.append((fam, "pre1", ["scenarios=%d" % (6 if q else 30), "threads=2", "opsper=2", "directed=2"]))
         if prop == "C09":   # scans and cursors must terminate too, whatever splits / layer-root replacements happen under them
             for fam in ["layerfull", "layer", "full", "two"]:
                 J.append((fam, "random", ["scenarios=%d" % (15 if q else 60), "runs=%d" % (10 if q else 30), "threads=2", "opsper=2", "scans=25", "iscans=35"]))
@@ -46,6 +49,13 @@ def plan(prop, tier):
         J.append(("ddl", "random", ["scenarios=%d" % (60 if q else 300), "runs=%d" % (20 if q else 40), "threads=2", "opsper=2"]))
         J.append(("ddl", "pre1", ["scenarios=%d" % (20 if q else 100), "threads=2", "opsper=2"]))
         J.append(("ddl", "pct", ["scenarios=%d" % (30 if q else 150), "runs=%d" % (15 if q else 30), "threads=3", "opsper=2"]))
+    elif prop == "C19c":   # a reader of a leaf decides from ONE load of the permutation word: lookups racing with removes / inserts in the same leaf
+        for fam in ["border", "full", "two"]:
+            J.append((fam, "random", ["scenarios=%d" % (25 if q else 120), "runs=%d" % (12 if q else 30), "threads=2", "opsper=2"]))
+            J.append((fam, "pre1", ["scenarios=%d" % (10 if q else 40), "threads=2", "opsper=2"]))
+            # directed: lookup of the leaf's greatest key (last rank) vs removes / re-inserts of other keys of the leaf
+            J.append((fam, "pre1", ["scenarios=%d" % (8 if q else 30), "threads=2", "opsper=2", "directed=2"]))
+            J.append((fam, "pct", ["scenarios=%d" % (8 if q else 30), "runs=%d" % (10 if q else 30), "threads=3", "opsper=2", "directed=2"]))
     elif prop == "C15c":
         for fam in ["border", "full", "two", "layer"]:
             J.append((fam, "random", ["scenarios=%d" % (25 if q else 120), "runs=%d" % (12 if q else 30), "threads=2", "opsper=2"]))
@@ -58,9 +68,9 @@ def plan(prop, tier):
     return ["seed=%d" % s], J
 
 
-ON = {"C13c": ["LIN", "QUIES"], "C15c": ["LIN"], "C01": ["LIN"], "C04": ["LIN", "SCAN"], "C06": ["LIN", "SCAN", "NV"], "C08c": ["LIN", "QUIES"], "C09": ["QUIES"], "C10": ["LIN", "SCAN", "NV"]}
+ON = {"C13c": ["LIN", "QUIES"], "C15c": ["LIN"], "C19c": ["LIN"], "C01": ["LIN"], "C04": ["LIN", "SCAN"], "C06": ["LIN", "SCAN", "NV"], "C08c": ["LIN", "QUIES"], "C09": ["QUIES"], "C10": ["LIN", "SCAN", "NV"]}
 # which failure kinds count for which property (others are somebody else's property and are only noted)
-MINE = {"C13c": {"not-linearizable", "quiescent-structure"}, "C15c": {"not-linearizable"}, "C01": {"not-linearizable"}, "C04": {"not-linearizable", "scan-shape"}, "C06": {"scan-nv-misses-insert", "scan-nv-empty"},
+MINE = {"C13c": {"not-linearizable", "quiescent-structure"}, "C15c": {"not-linearizable"}, "C19c": {"not-linearizable"}, "C01": {"not-linearizable"}, "C04": {"not-linearizable", "scan-shape"}, "C06": {"scan-nv-misses-insert", "scan-nv-empty"},
         "C08c": {"quiescent-structure", "not-linearizable"}, "C09": {"quiescent-structure"}, "C10": {"not-linearizable", "scan-shape", "scan-nv-misses-insert"}}
 
 
